@@ -17,7 +17,9 @@ def gen_cases(ck):
     for _ in range(300 if quick else 6000):
         single = rng.random() < 0.2
         nf = 1 if single else rng.choice([1, 2, 3, 4, 6])
-        sizes = tuple(rng.choice([1, 5, 100, 1000]) for _ in range(nf))
+        sizes = tuple(rng.choice([0, 1, 5, 100, 1000, 16384, 16385]) for _ in range(nf))
+        if sum(sizes) == 0:
+            sizes = sizes[:-1] + (7,)
         damage = {}
         if rng.random() < 0.7:
             for i in rng.sample(range(nf), rng.randint(1, nf)):
@@ -131,7 +133,7 @@ def run(ck, model_ok):
             if kind in ('file', 'extra'):
                 try:
                     full = t.verify(cp, threads=1)
-                except torf.TorfError:
+                except Exception:  # noqa -- only a successful verify() matters here (IndexError on damaged zero-length entries: known C02 finding)
                     full = False
                 if full and res != ('ret', True) and cb in (None, 0):
                     ck.fail('oracle', 'verify-ok-but-filesize-fails', case, True, repr(res), 'verify() succeeds but verify_filesize() does not')
